@@ -159,6 +159,7 @@ class World:
        'send_err'      the send call raises OSError, nothing delivered
        'send_partial'  the send call delivers 1 byte and the *next* send raises OSError
        'send_zero'     the send call returns 0
+       'send_zero_forever'  this and every later send call return 0
        'reply_lost'    the pending reply is discarded and the recv call times out; the connection stays alive
        'send_timeout'  the send call raises socket.timeout, and so does every later send on that socket (window closed for good)
        'recv_err'      the recv call raises OSError
@@ -286,6 +287,9 @@ class World:
             sock.dead = True
             raise BrokenPipeError(32, "Broken pipe")
         if fault == "send_zero":
+            return 0
+        if fault == "send_zero_forever" or getattr(sock, "send_zero_stuck", False):
+            sock.send_zero_stuck = True  # the connection is broken for good: every send returns 0 from now on
             return 0
         n = len(data)
         if fault == "send_partial" and n > 1:
